@@ -197,15 +197,15 @@ func runC17(c *Ctx) {
 		ast.Inspect(send.Body, func(n ast.Node) bool {
 			if call, ok := n.(*ast.CallExpr); ok {
 				if id, ok := call.Fun.(*ast.Ident); ok && id.Name == "append" {
-					if o := objOf(info, call.Args[0]); o != nil && o.Name() == "pending" {
-						appended = true
+					if o := objOf(info, call.Args[0]); o != nil && o == objOf(info, wait.X) {
+						appended = true // the list the wait loop ranges over
 					}
 				}
 			}
 			return true
 		})
 		waitsOn := false
-		if o := objOf(info, wait.X); o != nil && o.Name() == "pending" {
+		if o := objOf(info, wait.X); o != nil {
 			ast.Inspect(wait.Body, func(n ast.Node) bool {
 				if ue, ok := n.(*ast.UnaryExpr); ok && ue.Op.String() == "<-" {
 					if f := selField(info, ue.X); f != nil && f.Name() == "deactivated" {
